@@ -398,6 +398,7 @@ class Nodes(_Nodes):
         '=>': '| !',
         '=>': '| !',
         '<=>': '! ^',
+        '^': '^',
         'ite': 'ite', '@': '',
         r'\A': r'\A', r'\E': r'\E', r'\S': r'\S',
         'X': '',
